@@ -19,7 +19,7 @@ ANCHORS = ["pyrex.ray_tracing:SpecializedRayTracePath._int_terms", "pyrex.ray_tr
            "pyrex.ray_tracing:BasicRayTracer._get_launch_angle", "pyrex.ray_tracing:BasicRayTracer.angle_search",
            "pyrex.ray_tracing:BasicRayTracePath.z_integral", "pyrex.ray_tracing:BasicRayTracer._direct_r", "pyrex.ray_tracing:BasicRayTracer._indirect_r"]
 RULE = ("one case = (ice: Antarctic / AraSim / Greenland defaults or random n0,k,a,range; tracer: Specialized or Basic with "
-        "dz in {0.25,1,4}; endpoint pair of class generic / shallow / deep / near-vertical / shadow-boundary / "
+        "dz in {0.25,1,4}; endpoint pair of class generic / shallow / deep / near-vertical / exactly vertical (rho = 0) / shadow-boundary / "
         "almost-horizontal / steep, any x,y offset and azimuth); non-trivial = the tracer returned at least one solution "
         "and the ODE oracle decided every clause for it; distinct = hash of the case")
 ASSUMPTIONS = ["scipy solve_ivp DOP853 at rtol 1e-11 is accurate to 1e-8 m over 10 km",
@@ -29,7 +29,7 @@ ASSUMPTIONS = ["scipy solve_ivp DOP853 at rtol 1e-11 is accurate to 1e-8 m over 
                "numeric tracer: the two depths are at least 2 dz apart (fewer than two trapezoid steps is outside its domain)"]
 BUDGET = {"quick": 600, "thorough": 5400}
 CASE_TIMEOUT = {"quick": 120, "thorough": 240}
-CLASSES = ["generic", "shallow", "deep", "near-vertical", "shadow-boundary", "almost-horizontal", "steep"]
+CLASSES = ["generic", "shallow", "deep", "near-vertical", "shadow-boundary", "almost-horizontal", "steep", "exactly-vertical"]
 
 
 def gen_cases(tier, seed):
@@ -58,6 +58,10 @@ def gen_cases(tier, seed):
         elif cls == "steep":
             rho = 10 ** rng.uniform(-1, 2)
             z1 = z0 + float(rng.choice([-1, 1])) * rng.uniform(200, 1500)
+        elif cls == "exactly-vertical":
+            rho = 0.0          # receiver exactly above / below the source (launch angle exactly 0 or pi)
+            if abs(z1 - z0) < 5:
+                z1 = z0 + 50.0 if z0 < -60 else z0 - 50.0
         z0, z1 = float(np.clip(z0, zmin, -0.01)), float(np.clip(z1, zmin, -0.01))
         ph = rng.uniform(0, 2 * np.pi)
         a = [float(rng.uniform(-2e3, 2e3)), float(rng.uniform(-2e3, 2e3)), z0]
